@@ -66,6 +66,23 @@ def job_guards(j):
             "layout": ["norm", "dnorm0..2", "normalized0..2", "norm2", "jac 9", "safe_div", "dsafe_div/da", "dsafe_div/db"]}
 
 
+PARAM_FIELDS = ["body_mass", "body_inertia", "body_pos", "body_quat", "body_ipos", "body_iquat", "body_gravcomp", "jnt_pos", "jnt_axis", "jnt_stiffness",
+                "qpos_spring", "dof_damping", "dof_armature", "actuator_gainprm", "actuator_biasprm", "actuator_gear", "tendon_stiffness", "tendon_damping",
+                "tendon_lengthspring", "site_pos", "opt.gravity", "opt.density", "opt.viscosity", "opt.wind", "opt.timestep"]
+
+
+def get_param(mx, name):
+    return getattr(mx.opt, name[4:]) if name.startswith("opt.") else getattr(mx, name)
+
+
+def with_params(mx, params):
+    top = {k: v for k, v in params.items() if not k.startswith("opt.")}
+    opt = {k[4:]: v for k, v in params.items() if k.startswith("opt.")}
+    if opt:
+        top["opt"] = mx.opt.replace(**opt)
+    return mx.replace(**top)
+
+
 def job_pipeline(j):
     m = mujoco.MjModel.from_xml_string(j["xml"])
     try:
@@ -77,25 +94,38 @@ def job_pipeline(j):
     rng = np.random.default_rng(j["seed"])
     nout = m.nv if fn == "forward" else m.nq + m.nv
     W = jp.asarray(rng.uniform(-1, 1, (j["nprobe"], nout)))
+    # real-valued model parameters that are differentiated too
+    pnames = []
+    if j.get("params"):
+        for name in PARAM_FIELDS:
+            try:
+                v = get_param(mx, name)
+            except AttributeError:
+                continue
+            if isinstance(v, (jax.Array, np.ndarray)) and np.asarray(v).size and np.issubdtype(np.asarray(v).dtype, np.floating):
+                pnames.append(name)
+    p0 = {k: jp.asarray(np.asarray(get_param(mx, k), F64)) for k in pnames}
 
-    def outputs(qpos, qvel, ctrl):
+    def outputs(qpos, qvel, ctrl, params):
+        mm = with_params(mx, params) if params else mx
         d = dx0.replace(qpos=qpos, qvel=qvel, ctrl=ctrl)
         if fn == "forward":
-            return mjx.forward(mx, d).qacc
-        r = mjx.step(mx, d)
+            return mjx.forward(mm, d).qacc
+        r = mjx.step(mm, d)
         return jp.concatenate([r.qpos, r.qvel])
 
-    def probes(qpos, qvel, ctrl):
-        return W @ outputs(qpos, qvel, ctrl)
+    def probes(qpos, qvel, ctrl, params):
+        return W @ outputs(qpos, qvel, ctrl, params)
 
-    jac = jax.jit(jax.jacrev(probes, argnums=(0, 1, 2)))
-    jfw = jax.jit(jax.jacfwd(probes, argnums=(0, 1, 2)))
+    jac = jax.jit(jax.jacrev(probes, argnums=(0, 1, 2, 3)))
+    jfw = jax.jit(jax.jacfwd(probes, argnums=(0, 1, 2, 3)))
     pj = jax.jit(probes)
     res = []
     for s in j["states"]:
         q, v, u = (jp.asarray(np.array(s[k], F64)) for k in ("qpos", "qvel", "ctrl"))
-        Jr = [np.asarray(x, F64) for x in jac(q, v, u)]
-        Jf = [np.asarray(x, F64) for x in jfw(q, v, u)]
+        Jr4, Jf4 = jac(q, v, u, p0), jfw(q, v, u, p0)
+        Jr = [np.asarray(x, F64) for x in Jr4[:3]]
+        Jf = [np.asarray(x, F64) for x in Jf4[:3]]
         args = [np.array(s[k], F64) for k in ("qpos", "qvel", "ctrl")]
         eps = j.get("eps", 1e-6)
         FD = []
@@ -104,11 +134,30 @@ def job_pipeline(j):
             for k in range(args[ai].size):
                 ap = [x.copy() for x in args]; am = [x.copy() for x in args]
                 ap[ai][k] += eps; am[ai][k] -= eps
-                cols.append((np.asarray(pj(*[jp.asarray(x) for x in ap])) - np.asarray(pj(*[jp.asarray(x) for x in am]))) / (2 * eps))
+                cols.append((np.asarray(pj(*[jp.asarray(x) for x in ap], p0)) - np.asarray(pj(*[jp.asarray(x) for x in am], p0))) / (2 * eps))
             FD.append(np.array(cols).T.reshape(j["nprobe"], args[ai].size) if cols else np.zeros((j["nprobe"], 0)))
-        res.append({"rev": [x.tolist() for x in Jr], "fwd": [x.tolist() for x in Jf], "fd": [x.tolist() for x in FD],
-                    "value": np.asarray(pj(q, v, u), F64).tolist()})
-    return {"states": res, "dims": {"nq": int(m.nq), "nv": int(m.nv), "nu": int(m.nu)}}
+        out = {"rev": [x.tolist() for x in Jr], "fwd": [x.tolist() for x in Jf], "fd": [x.tolist() for x in FD],
+               "value": np.asarray(pj(q, v, u, p0), F64).tolist()}
+        if pnames:
+            pr = {}
+            for name in pnames:
+                base = np.asarray(p0[name], F64)
+                flat = base.reshape(-1)
+                cols = []
+                for k in range(flat.size):
+                    fp, fm = flat.copy(), flat.copy()
+                    h = eps * max(1.0, abs(flat[k]))
+                    fp[k] += h; fm[k] -= h
+                    pp = dict(p0); pp[name] = jp.asarray(fp.reshape(base.shape))
+                    pm = dict(p0); pm[name] = jp.asarray(fm.reshape(base.shape))
+                    cols.append((np.asarray(pj(q, v, u, pp)) - np.asarray(pj(q, v, u, pm))) / (2 * h))
+                pr[name] = {"value": flat.tolist(),
+                            "rev": np.asarray(Jr4[3][name], F64).reshape(j["nprobe"], -1).tolist(),
+                            "fwd": np.asarray(Jf4[3][name], F64).reshape(j["nprobe"], -1).tolist(),
+                            "fd": np.array(cols).T.reshape(j["nprobe"], flat.size).tolist()}
+            out["params"] = pr
+        res.append(out)
+    return {"states": res, "dims": {"nq": int(m.nq), "nv": int(m.nv), "nu": int(m.nu)}, "param_fields": pnames}
 
 
 JOBS = {"cyl": job_cyl, "guards": job_guards, "pipeline": job_pipeline}
